@@ -534,7 +534,24 @@ func init() {
 	enumCheck("C10", "model_checking",
 		func(q bool) []*EnumPlan {
 			return []*EnumPlan{{Name: "any-node-same-outcome", Cases: c10Cases, Eval: evalC10}}
-		}, nil,
+		},
+		func(q bool) *SchedPlan {
+			// requests in flight while the node leaves the leader role (SLock.updateState run by a second thread)
+			cfg := hapi.Config{FastKeys: 1, Concurrent: 1}
+			cfg2 := hapi.Config{FastKeys: 2, Concurrent: 2}
+			down := PokeStep("setstate", 2)
+			return &SchedPlan{Specs: []*EngSpec{
+				{Name: "lock-vs-step-down", Cfg: cfg, Fine: true, Threads: [][]Step{{C(L(1, 1, 1, 0, 10, 0, 0))}, {down}}},
+				{Name: "relock-vs-step-down", Cfg: cfg, Fine: true, Setup: []Step{C(L(9, 1, 1, 0, 10, 0, 2))}, Threads: [][]Step{{C(L(1, 1, 1, 0, 10, 0, 2))}, {down}}},
+				{Name: "two-locks-two-shards-vs-step-down", Cfg: cfg2, Fine: true, Threads: [][]Step{{C(L(1, 1, 1, 0, 10, 0, 0))}, {C(L(2, 2, 2, 0, 10, 0, 0))}, {down}}},
+				{Name: "unlock-wakes-waiter-vs-step-down", Cfg: cfg, Fine: true, Setup: []Step{C(L(9, 1, 1, 0, 10, 0, 0)), C(L(8, 1, 2, 9, 10, 0, 0))}, Threads: [][]Step{{C(U(1, 1, 1))}, {down}}},
+			}, Monitors: []MonitorFactory{MonitorC10}, Bound: func(s *EngSpec, q bool) int {
+				if q || len(s.Threads) > 2 {
+					return 2
+				}
+				return 3
+			}, MaxExec: schedCap(6000)}
+		},
 		"every client request sequence up to a depth (binary and text protocol) is played twice on fresh two-node clusters built from real node copies (leader n0, follower n1 synced over the in-memory network): once against the leader, once through the follower's port; replies, the leader's final holds and the follower's converged holds must be equal. With the replication stream held, traffic sent to the follower must leave the follower's own holds unchanged. A node forced into follower / sync / config / vote state without a leader address must refuse every request and change nothing. distinct = distinct reply traces",
 		[]string{"message handlers of the forwarding path run under the default schedule (no interleaving exploration inside handlers)", "concurrent-check flag (local probable refusal on a follower) is not in the alphabet", "role change between two requests of one connection is covered by the forced-state runs (state set before the first request)"})
 }
